@@ -178,15 +178,13 @@ Theorem C11_code_is_instance : forall hints ordered reduce t0 t1 r,
 Proof. intros hints ordered reduce t0 t1 r H. rewrite diff_tree_lit_eq in H. now apply diff_tree_is_diff_with. Qed.
 Print Assumptions C11_code_is_instance.
 
-(* ---- diff() does not raise in the domain ------------------------------------ *)
-(* t2 is a plain Tree keyed by hash(data): Tree._register raises
-   UniqueConstraintError for two siblings with one data_id.  With sibling-unique
-   inputs whose hashes do not collide ([hash_inj]: equal hash => equal data) the
-   model's check passes and the result is [diff_with] for the order built from
-   the hints (outside the domain the model does answer None where the
-   implementation raises; the correspondence covers that) *)
-Theorem C11_no_error : forall hints ordered reduce t0 t1,
-  dom t0 t1 -> sib_unique t1 -> hash_inj (pre_f t0 ++ pre_f t1) ->
+(* ---- diff() does not raise ---------------------------------------------------- *)
+(* t2's nodes keep the data_ids of their sources (repair D20), and
+   Tree._register raises UniqueConstraintError only for two siblings with one
+   data_id: for inputs that are well-formed trees themselves ([dsu]: no two
+   siblings with one data_id, what _register guarantees for every real tree)
+   the model's check passes, whatever the data; no domain hypothesis *)
+Theorem C11_no_error : forall hints ordered reduce t0 t1, dsu t0 -> dsu t1 ->
   diff_tree_lit hints ordered reduce t0 t1 =
   Some (diff_with (eff_order hints (fst (compare ordered t0 t1))) ordered reduce t0 t1).
 Proof. exact diff_no_error. Qed.
@@ -194,9 +192,9 @@ Print Assumptions C11_no_error.
 
 Example ex_no_error : exists r, diff_tree_lit [] true false ex_t0 ex_t1 = Some r.
 Proof. eexists. vm_compute. reflexivity. Qed.
-Example ex_error_outside_domain :   (* two t0 siblings with equal hash under different explicit ids *)
+Example ex_error_needs_wellformed_input :   (* a forest value no real tree can have: two siblings with one data_id *)
   diff_tree_lit [] false false
-    [T 1 (I 1 1 7 false [] (DStr [120%Z]) None []) []; T 2 (I 2 1 7 false [] (DStr [121%Z]) None []) []] [] = None.
+    [T 1 (I 1 1 7 false [] (DStr [120%Z]) None []) []; T 2 (I 2 2 8 false [] (DStr [120%Z]) None []) []] [] = None.
 Proof. reflexivity. Qed.
 
 (* ---- the set order: a permutation of added_nodes; complete orders find every move --- *)
@@ -227,23 +225,23 @@ Print Assumptions C11_no_raise_decidable.
 Example ex_no_raise_domain : no_raise_b ex_t0 ex_t1 = true. Proof. reflexivity. Qed.
 
 (* ---- the property's own wording of the domain ------------------------------- *)
-(* default-id trees (data_id = hash(data)) over a shared alphabet on which ==
-   and data_id agree, no two siblings with equal data: all hypotheses used above *)
-Theorem C11_domain_default_ids : forall t0 t1,
-  sib_unique t0 -> sib_unique t1 ->
-  default_ids (pre_f t0 ++ pre_f t1) -> did_is_data (pre_f t0 ++ pre_f t1) ->
-  dom t0 t1 /\ hash_inj (pre_f t0 ++ pre_f t1).
+(* trees over a shared alphabet on which == and data_id agree (default ids:
+   data_id = hash(data), or any other id function with that property), no two
+   siblings with equal data: all hypotheses used in this file *)
+Theorem C11_domain_ids_agree_with_data : forall t0 t1,
+  sib_unique t0 -> sib_unique t1 -> did_is_data (pre_f t0 ++ pre_f t1) ->
+  dom t0 t1 /\ did_inj (pre_f t0 ++ pre_f t1) /\ dsu t0 /\ dsu t1.
 Proof. exact default_id_domain. Qed.
-Print Assumptions C11_domain_default_ids.
+Print Assumptions C11_domain_ids_agree_with_data.
 
 (* ---- result nodes wrap source data; moved pairs have equal DATA ------------- *)
 Theorem C11_result_nodes_have_sources : forall order ordered t0 t1,
-  Forall (fun x => exists s, In s (pre_f t0 ++ pre_f t1) /\ key x = key s /\ rdid x = DInt (hkey s))
+  Forall (fun x => exists s, In s (pre_f t0 ++ pre_f t1) /\ key x = key s /\ rdid x = rdid s)
          (pre_f (snd (diff_with order ordered false t0 t1))).
 Proof. exact result_nodes_have_sources. Qed.
 Print Assumptions C11_result_nodes_have_sources.
 
-Theorem C11_moved_pairs_same_data : forall order ordered t0 t1, hash_inj (pre_f t0 ++ pre_f t1) ->
+Theorem C11_moved_pairs_same_data : forall order ordered t0 t1, did_inj (pre_f t0 ++ pre_f t1) ->
   let f := snd (diff_with order ordered false t0 t1) in
   (forall x, In x (pre_f f) -> has_dc x MOVED_HERE = true ->
      exists y, In y (pre_f f) /\ has_dc y MOVED_TO = true /\ key y = key x) /\
